@@ -69,6 +69,15 @@ def shards(tier):
     return [("month", m) for m in range(1, 13)] + [("non", 0), ("unicode", 0), ("leak", 0), ("nofield", 0)]
 
 
+def _sub_non_months():
+    from ..subtypes import I, Num, S, T
+
+    return [S("foo"), S("{jan}"), S("13"), S(""), S("janu"), I(0), I(13), I(-1), Num.ZERO, Num.THIRTEEN, T(("jan",))]
+
+
+NON_MONTHS = NON_MONTHS + _sub_non_months()
+
+
 def expected(name, m):
     return {"int": m, "abbr": ABBR[m - 1], "long": FULL[m - 1]}[name]
 
@@ -151,6 +160,33 @@ def check_month(m, acc):
                         {"oracle": "composition", "first": n1, "second": n2},
                         {"case": case, "observed": repr(res), "expected": repr(firsts[n2])},
                     )
+
+
+def check_subtypes(m, acc):
+    """Month values that are instances of a subclass of str / int (a caller's own string type, an IntEnum): the same
+    table applies; the result equals the table entry and is a str / an int (a value already in the target spelling
+    may be handed back as it is)."""
+    from ..subtypes import I, Num, S
+
+    vals = [S(str(m)), S("0" + str(m)), S(ABBR[m - 1]), S(ABBR[m - 1].upper()), S(FULL[m - 1]), S(FULL[m - 1].lower()), I(m), Num(m)]
+    for v in vals:
+        for inplace in (True, False):
+            for name, M in MWS:
+                case = {"value": repr(v), "value_type": type(v).__name__, "middleware": name, "inplace": inplace, "subtype": True}
+                acc.case(nontrivial_key=("sub", repr(v), type(v).__name__, name, inplace))
+                r = run(M, v, inplace, acc, case)
+                if r is None:
+                    continue
+                res, sideok = r
+                exp = expected(name, m)
+                acc.step(("v", repr(v), type(v).__name__), name, canon(res))
+                if not (isinstance(res, type(exp)) and res == exp and not isinstance(res, bool)):
+                    acc.violation(
+                        {"oracle": "month_table", "middleware": name, "spelling": "subclass of " + type(v).__mro__[-2].__name__ if not isinstance(v, Num) else "IntEnum"},
+                        {"case": case, "observed": repr(res), "expected": repr(exp)},
+                    )
+                elif not sideok:
+                    acc.violation({"oracle": "other_fields_and_blocks_untouched", "middleware": name}, {"case": case, "observed": "changed", "expected": "unchanged"})
 
 
 def check_chains(m, acc):
@@ -267,6 +303,7 @@ def mk_nofield():
 def run_shard(shard, tier, acc):
     if shard[0] == "month":
         check_month(shard[1], acc)
+        check_subtypes(shard[1], acc)
         check_chains(shard[1], acc)
     elif shard[0] == "non":
         check_unchanged(NON_MONTHS, acc)
@@ -287,6 +324,7 @@ def replay(case, acc):
     else:
         for m in range(1, 13):
             check_month(m, acc)
+            check_subtypes(m, acc)
         check_unchanged(NON_MONTHS, acc)
         check_unchanged(unicode_alphabet(), acc, exception_only=True)
 
